@@ -296,6 +296,60 @@ func Run(tier string) int {
 			}
 		}
 	}
+	// data filters with variables of a sub-query: the evaluator cannot compute them, the universe assigns each
+	// a truth value of its own.  Elements that differ only in the variable, its sub-query or its position are
+	// different atoms; trees of <=3 leaves over five of them and two ordinary atoms
+	{
+		var op []ref.AtomDef
+		for _, t := range []string{`cdata:"@s:a@"`, `cdata:"@s:b@"`, `sdata:"@s:a@"`, `cdata:"v@s:a@"`, `cdata:"v@t:a@"`, `cdata:"@s:a@v"`} {
+			q, err := query.Parse(t)
+			if err != nil || len(q.Conditions) != 1 || len(q.Conditions[0]) != 1 {
+				mc.Fatal("opaque atom %s: %v %v", t, err, q)
+			}
+			dc, ok := q.Conditions[0][0].(*query.DataCondition)
+			if !ok || len(dc.Elements) != 1 || dc.Inverted {
+				mc.Fatal("opaque atom %s is not one plain data filter element", t)
+			}
+			key := ref.OpaqueKey(dc.Elements[0])
+			g := "opaque " + t
+			groups[g] = &ref.Group{Name: g, Values: []func(r *ref.Rec){
+				func(r *ref.Rec) {
+					if r.Opaque == nil {
+						r.Opaque = map[string]bool{}
+					}
+					r.Opaque[key] = false
+				},
+				func(r *ref.Rec) {
+					if r.Opaque == nil {
+						r.Opaque = map[string]bool{}
+					}
+					r.Opaque[key] = true
+				}}}
+			a := ref.AtomDef{Atom: &ref.Atom{Text: t, Eval: func(r *ref.Rec) bool { return r.Opaque[key] }}, Groups: []string{g}, W: 1, C: 1}
+			atomGroups[a.Atom] = a.Groups
+			atomShape[a.Atom] = [2]int{1, 1}
+			op = append(op, a)
+		}
+		for _, a := range alphabet {
+			if a.Text == "cport:80" || a.Text == "cdata:a" {
+				op = append(op, a)
+			}
+		}
+		for _, fm := range []struct{ leaves, nots int }{{2, 2}, {3, 1}} {
+			ref.Trees(op, fm.leaves, fm.nots, func(n *ref.Node) {
+				if !n.WellDefined() || n.HasThen() {
+					return // a THEN over filters whose verdict is assigned has no assigned meaning
+				}
+				t := n.Text()
+				if seenText[t] || !strings.Contains(t, "@") {
+					return
+				}
+				seenText[t] = true
+				cases = append(cases, caseT{n, t, nil})
+				famCounts["data filters with sub-query variables as free atoms"]++
+			})
+		}
+	}
 	uniCache := map[string][]*ref.Rec{}
 	job := mc.ShardedJob{
 		N:        len(cases),
